@@ -164,10 +164,10 @@ func TestVerifC09KFKeyCursorOrder(t *testing.T) {
 // byte is damaged). CompactFull must fail and leave the inputs in place; instead
 // tsmBatchKeyIterator.Next retries the same merge forever, appending one error per round (the
 // process grows until it is killed), and never looks at the interrupt channel. The test undoes
-// the damage after a second (the mapping is shared with the file) so the leaked loop ends.
+// the damage after three seconds (the mapping is shared with the file) so the leaked loop ends.
 func TestVerifC09KFUndecodableBlockSpins(t *testing.T) {
 	const sig = "compaction-spins-forever-on-undecodable-block"
-	st := verifkit.For("C09", "TestVerifC09KFUndecodableBlockSpins", "directed: two overlapping files, one block with a damaged type byte, CompactFull under a 1 s watchdog; the damage is undone afterwards so that the loop ends")
+	st := verifkit.For("C09", "TestVerifC09KFUndecodableBlockSpins", "directed: two overlapping files, one block with a damaged type byte, CompactFull under a 3 s watchdog; the damage is undone afterwards so that the loop ends")
 	defer st.Flush()
 	c := vC09Literal('f', [][][]int64{
 		{{1, 2, 3}, {10, 11}},
@@ -228,7 +228,7 @@ func TestVerifC09KFUndecodableBlockSpins(t *testing.T) {
 	var cerr error
 	select {
 	case cerr = <-done:
-	case <-time.After(time.Second):
+	case <-time.After(3 * time.Second):
 		spun = true
 		// undo the damage: the next decode succeeds and the loop ends (with the errors collected so far)
 		if _, err := f.WriteAt(orig, off); err != nil {
@@ -243,7 +243,7 @@ func TestVerifC09KFUndecodableBlockSpins(t *testing.T) {
 	st.Case(true, "literal-undecodable-block", fmt.Sprintf("kf:reproduced=%v", spun))
 	st.Sample(map[string]interface{}{"input": c.describe(), "spun": spun, "error_after": fmt.Sprint(cerr)})
 	if spun {
-		st.KnownReproduced(sig, "CompactFull over two overlapping files with one undecodable block did not return within 1 s (tsmBatchKeyIterator.Next retries the failing merge forever and accumulates errors); it returned only after the block was repaired on disk")
+		st.KnownReproduced(sig, "CompactFull over two overlapping files with one undecodable block did not return within 3 s (tsmBatchKeyIterator.Next retries the failing merge forever and accumulates errors); it returned only after the block was repaired on disk")
 		return
 	}
 	// repaired tree: the compaction must fail and leave everything as it was
